@@ -229,7 +229,7 @@ pub fn jobs(tier: Tier, oracle: fn(&TextTree, &str) -> Outcome) -> Vec<Box<dyn A
     for (i, (w, alpha, label)) in worlds_for_c01().into_iter().enumerate() {
         // primary world gets the deepest bound
         let bounds = match (tier, i) {
-            (Tier::Quick, 0) => TreeBounds { full_len: 3, ext_len: 6, max_special: 2 },
+            (Tier::Quick, 0) => TreeBounds { full_len: 3, ext_len: 5, max_special: 2 },
             (Tier::Quick, _) => TreeBounds { full_len: 3, ext_len: 5, max_special: 1 },
             (Tier::Thorough, 0) => TreeBounds { full_len: 4, ext_len: 7, max_special: 2 },
             (Tier::Thorough, _) => TreeBounds { full_len: 4, ext_len: 6, max_special: 2 },
